@@ -1737,6 +1737,20 @@ fn rate_to_n<R: RngCore>(rate: f32, rng: &mut R) -> u64 {
     }
 }
 
+/// Verification hook: the private `rate -> (n, alpha)` split used by [`SampledEmf`].
+#[cfg(metrique_verif)]
+#[doc(hidden)]
+pub fn verif_rate_to_n_alpha(rate: f32) -> (u64, f64) {
+    rate_to_n_alpha(rate)
+}
+
+/// Verification hook: the private `rate -> weight` choice used by [`SampledEmf`], with the caller's RNG.
+#[cfg(metrique_verif)]
+#[doc(hidden)]
+pub fn verif_rate_to_n<R: RngCore>(rate: f32, rng: &mut R) -> u64 {
+    rate_to_n(rate, rng)
+}
+
 impl<R: RngCore> SampledFormat for SampledEmf<R> {
     fn format_with_sample_rate(
         &mut self,
